@@ -161,4 +161,217 @@ example :
     s1.2.2 = .host cexA' ∧ s2.2.2 = .host cexB' ∧ s3.2.2 = .done ∧ s3.2.1.given = [cexA', cexB'] := by
   decide
 
+/-! ### completeness while states and lists change -/
+
+theorem mem_dropWhile_of_not {α : Type} (p : α → Bool) (l : List α) (x : α) (hx : x ∈ l) (hp : p x = false) :
+    x ∈ l.dropWhile p := by
+  induction l with
+  | nil => cases hx
+  | cons a t ih =>
+    rw [List.dropWhile_cons]
+    split
+    · rename_i hpa
+      rcases List.mem_cons.mp hx with e | e
+      · subst e; rw [hp] at hpa; cases hpa
+      · exact ih e
+    · exact hx
+
+theorem scanPos_done (up : Nat → Bool) (used : List Host) (ps rest : List (Option Host))
+    (h : scanPos up used ps = (.done, rest)) : ∀ y, some y ∈ ps → up y.id = true → y ∈ used := by
+  induction ps with
+  | nil => intro y hy; cases hy
+  | cons a t ih =>
+    cases a with
+    | none => simp [scanPos] at h
+    | some z =>
+      unfold scanPos at h
+      split at h
+      · simp at h
+      · rename_i hc
+        intro y hy hu
+        rcases List.mem_cons.mp hy with e | e
+        · injection e with e
+          subst e
+          simp only [Bool.and_eq_true, Bool.not_eq_true', List.contains_eq_mem, decide_eq_false_iff_not, not_and,
+            Classical.not_not] at hc
+          exact hc hu
+        · exact ih h y e hu
+
+theorem scanPos_host_rest (up : Nat → Bool) (used : List Host) (ps rest : List (Option Host)) (x : Host)
+    (h : scanPos up used ps = (.host x, rest)) :
+    ∀ y, some y ∈ ps → up y.id = true → y ∈ used ∨ y = x ∨ some y ∈ rest := by
+  induction ps with
+  | nil => simp [scanPos] at h
+  | cons a t ih =>
+    cases a with
+    | none => simp [scanPos] at h
+    | some z =>
+      unfold scanPos at h
+      split at h
+      · injection h with e1 e2
+        injection e1 with e1
+        subst e1 e2
+        intro y hy _
+        rcases List.mem_cons.mp hy with e | e
+        · injection e with e; exact Or.inr (Or.inl e)
+        · exact Or.inr (Or.inr e)
+      · rename_i hc
+        intro y hy hu
+        rcases List.mem_cons.mp hy with e | e
+        · injection e with e
+          subst e
+          simp only [Bool.and_eq_true, Bool.not_eq_true', List.contains_eq_mem, decide_eq_false_iff_not, not_and,
+            Classical.not_not] at hc
+          exact Or.inl (hc hu)
+        · exact ih h y e hu
+
+/-- the calls of one iterator, every call in its own policy state and under its own up/down assignment; the results
+are collected -/
+def runLR (it : LIter) : List (TA × (Nat → Bool)) → LIter × List Next
+  | [] => (it, [])
+  | c :: r => ((runLR (c.1.nextL c.2 it).2.1 r).1, (c.1.nextL c.2 it).2.2 :: (runLR (c.1.nextL c.2 it).2.1 r).2)
+
+/-- where a host that must still be offered is: offered already, among the replicas still to be looked at, at a
+position of the fallback iterator still to be looked at - or the fallback iterator does not exist yet -/
+def Pending (it : LIter) (h : Host) : Prop :=
+  h ∈ it.given ∨ h ∈ it.q1 ∨ h ∈ it.q2 ∨ (∃ ps, it.fb = some ps ∧ some h ∈ ps) ∨ it.fb = none
+
+theorem pending_next (t : TA) (up : Nat → Bool) (it : LIter) (h : Host) (hu : up h.id = true)
+    (hl : some h ∈ t.pol.positions) (hk : Pending it h) (hnp : (t.nextL up it).2.2 ≠ .panic) :
+    Pending (t.nextL up it).2.1 h ∧ ((t.nextL up it).2.2 = .done → h ∈ (t.nextL up it).2.1.given) := by
+  have hnot : (fun x : Host => !up x.id) h = false := by simp [hu]
+  have hnp' := hnp
+  unfold TA.nextL at hnp' ⊢
+  split
+  · -- a tier-0 replica is returned
+    rename_i y r hq
+    refine ⟨?_, fun hd => by cases hd⟩
+    simp only
+    rcases hk with hk | hk | hk | hk | hk
+    · exact Or.inl (List.mem_append_left _ hk)
+    · have := mem_dropWhile_of_not (fun x : Host => !up x.id) _ h hk hnot
+      rw [hq] at this
+      rcases List.mem_cons.mp this with e | e
+      · exact Or.inl (by rw [e]; simp)
+      · exact Or.inr (Or.inl e)
+    · exact Or.inr (Or.inr (Or.inl hk))
+    · exact Or.inr (Or.inr (Or.inr (Or.inl hk)))
+    · exact Or.inr (Or.inr (Or.inr (Or.inr hk)))
+  · rename_i hq
+    have hq1 : h ∉ it.q1 := fun hm => by
+      have := mem_dropWhile_of_not (fun x : Host => !up x.id) _ h hm hnot
+      rw [hq] at this; cases this
+    split
+    · -- a replica of a farther tier is returned
+      rename_i y r hq2
+      refine ⟨?_, fun hd => by cases hd⟩
+      simp only
+      rcases hk with hk | hk | hk | hk | hk
+      · exact Or.inl (List.mem_append_left _ hk)
+      · exact absurd hk hq1
+      · have := mem_dropWhile_of_not (fun x : Host => !up x.id) _ h hk hnot
+        rw [hq2] at this
+        rcases List.mem_cons.mp this with e | e
+        · exact Or.inl (by rw [e]; simp)
+        · exact Or.inr (Or.inr (Or.inl e))
+      · exact Or.inr (Or.inr (Or.inr (Or.inl hk)))
+      · exact Or.inr (Or.inr (Or.inr (Or.inr hk)))
+    · -- the fallback phase
+      rename_i hq2
+      have hq2' : h ∉ it.q2 := fun hm => by
+        have := mem_dropWhile_of_not (fun x : Host => !up x.id) _ h hm hnot
+        rw [hq2] at this; cases this
+      -- the positions walked now contain h unless it was offered
+      have hpos : h ∈ it.given ∨ some h ∈ (match it.fb with | some ps => (t, ps) | none => ({ t with pol := t.pol.bump }, t.pol.positions)).2 := by
+        rcases hk with hk | hk | hk | ⟨ps, hps, hm⟩ | hk
+        · exact Or.inl hk
+        · exact absurd hk hq1
+        · exact absurd hk hq2'
+        · right; rw [hps]; exact hm
+        · right; rw [hk]; exact hl
+      simp only at ⊢
+      split
+      · rename_i y rest hs
+        refine ⟨?_, fun hd => by cases hd⟩
+        simp only
+        rcases hpos with hg | hm
+        · exact Or.inl (List.mem_append_left _ hg)
+        · rcases scanPos_host_rest up it.given _ _ _ hs h hm hu with e | e | e
+          · exact Or.inl (List.mem_append_left _ e)
+          · exact Or.inl (by rw [e]; simp)
+          · exact Or.inr (Or.inr (Or.inr (Or.inl ⟨rest, rfl, e⟩)))
+      · rename_i e rest hne hs
+        simp only
+        cases e with
+        | host x => exact (hne x rfl).elim
+        | panic =>
+          exfalso
+          apply hnp
+          simp only [TA.nextL, hq, hq2, hs]
+        | done =>
+          have hg : h ∈ it.given := by
+            rcases hpos with hg | hm
+            · exact hg
+            · exact scanPos_done up it.given _ _ hs h hm hu
+          exact ⟨Or.inl hg, fun _ => hg⟩
+
+/-- COMPLETENESS WHILE STATES AND LISTS CHANGE: an iterator (any iterator `Pick` can return: `fb = none`, or its
+fallback positions contain `h`) is called any number of times, every call in an arbitrary policy state and under an
+arbitrary up/down assignment, no call panics, and the LAST call returns nil. Then every host `h` that during the whole
+life of the iterator was up at every call and stood at a position of the fallback policy's lists in the state of every
+call (it stayed listed and up - whatever was added, removed, reported or changed state around it) HAS BEEN OFFERED. -/
+theorem C11_lazy_iterator_complete (it0 : LIter) (calls : List (TA × (Nat → Bool))) (last : TA × (Nat → Bool)) (h : Host)
+    (h0 : Pending it0 h)
+    (hall : ∀ c ∈ calls ++ [last], c.2 h.id = true ∧ some h ∈ c.1.pol.positions)
+    (hnp : ∀ r ∈ (runLR it0 (calls ++ [last])).2, r ≠ .panic)
+    (hend : (runLR it0 (calls ++ [last])).2.getLast? = some .done) :
+    h ∈ (runLR it0 (calls ++ [last])).1.given := by
+  induction calls generalizing it0 with
+  | nil =>
+    simp only [List.nil_append, runLR] at hnp hend ⊢
+    have hc := hall last (by simp)
+    have hr : (last.1.nextL last.2 it0).2.2 = .done := by simpa using hend
+    exact (pending_next last.1 last.2 it0 h hc.1 hc.2 h0 (by rw [hr]; simp)).2 hr
+  | cons c r ih =>
+    simp only [List.cons_append, runLR] at hnp hend ⊢
+    have hc := hall c (by simp)
+    have hn1 : (c.1.nextL c.2 it0).2.2 ≠ .panic := hnp _ (by simp)
+    have hp := (pending_next c.1 c.2 it0 h hc.1 hc.2 h0 hn1).1
+    apply ih _ hp (fun d hd => hall d (by simp at hd ⊢; exact Or.inr hd))
+      (fun x hx => hnp x (List.mem_cons_of_mem _ hx))
+    have hne : (runLR (c.1.nextL c.2 it0).2.1 (r ++ [last])).2 ≠ [] := by
+      cases r <;> simp [runLR]
+    rw [List.getLast?_cons_of_ne_nil hne] at hend
+    exact hend
+
+/-- every host the fallback policy knows stands at a position of its next iterator (below the counter bound) -/
+theorem known_position (p : Pol) (hp : Inv p) (hb : Pol.below p) (h : Host) (hk : known p h) : some h ∈ p.positions := by
+  have hs := pickScan_small p (fun _ => true) hb
+  have hm : h ∈ p.pickSeq (fun _ => true) := (mem_pickSeq p hp _ h).mpr ⟨hk, rfl⟩
+  have : h ∈ (p.pickScan (fun _ => true)).offered := by rw [hs]; exact hm
+  have key : ∀ l : List (Option Host), ∀ x, x ∈ (runScan (fun _ => true) l).offered → some x ∈ l := by
+    intro l
+    induction l with
+    | nil => intro x hx; simp [runScan] at hx
+    | cons a t ih =>
+      cases a with
+      | none => intro x hx; simp [runScan] at hx
+      | some y =>
+        intro x hx
+        simp only [runScan, if_true, List.mem_cons] at hx
+        rcases hx with e | e
+        · rw [e]; exact List.mem_cons_self
+        · exact List.mem_cons_of_mem _ (ih x e)
+  exact key _ h this
+
+/-- non-vacuity of the completeness theorem: replicas a, c; c goes down after the first call and d is REMOVED from
+the lists before the iterator reaches its fallback phase; b stays up and listed: it is offered, the last call returns nil -/
+example :
+    let it0 := (cexTAok.openL id (some (0, 50))).2
+    let t1 := cexTAok.apply (.remove cexD')
+    let r := runLR it0 [(cexTAok, fun _ => true), (t1, fun i => i != 3), (t1, fun i => i != 3)]
+    r.2 = [.host cexA', .host cexB', .done] ∧ r.1.given = [cexA', cexB'] ∧ Pending it0 cexB' ∧
+      some cexB' ∈ cexTAok.pol.positions ∧ some cexB' ∈ t1.pol.positions := by
+  refine ⟨by decide, by decide, Or.inr (Or.inr (Or.inr (Or.inr rfl))), by decide, by decide⟩
+
 end C11
